@@ -35,7 +35,10 @@ RULE = ("part 1 exhaustive over scenarios = (services in the configuration, Comp
         "and under a takeover), and again while the implementations of one connected protocol raise NotSupportedError / "
         "ProtocolError when called (the error must reach the caller, nobody else may execute the call); Companion's REAL "
         "connect callable against a fake device, every request of its connect sequence rejected in turn; non-trivial = the call is not served by the first connected protocol of the plain "
-        "priority list. part 2: random histories of takeover/release (>=30% failing takeovers by construction) interleaved "
+        "priority list. part 1b: the same device object with SYNTHETIC protocol classes: every protocol implementing every "
+        "member for all 31 sets (each priority list exercised in full) and random implementation tables, the classes built in "
+        "five shapes (direct subclass, implementation inherited from an intermediate class, through two levels, provided by a "
+        "mixin, overridden at two levels), compared with the generic model on those tables and with the oracle. part 2: random histories of takeover/release (>=30% failing takeovers by construction) interleaved "
         "with state updates; non-trivial = history with at least one failing takeover and one release; "
         "distinct = (scenario, holder, member incl. argument variant) / (scenario, holder, publisher) resp. (scenario, op list)")
 ASSUMPTIONS = [
@@ -249,8 +252,8 @@ class Patches:
                     overridden = d is not None and d is not base
                     self.genuine[(cls, name)] = overridden and not self._same_body(
                         d.__dict__[name], base.__dict__[name], underlying)
-                    if overridden:
-                        self._patch(cls, base, name, underlying)
+                    if overridden and not getattr(cls, "_verif_synthetic", False):
+                        self._patch(cls, base, name, underlying)     # synthetic classes record by themselves
 
     _STUB_OPS = {"RESUME", "RETURN_GENERATOR", "POP_TOP", "NOP", "PUSH_NULL", "LOAD_GLOBAL", "LOAD_ATTR", "LOAD_CONST",
                  "KW_NAMES", "PRECALL", "CALL", "RAISE_VARARGS", "CALL_INTRINSIC_1", "RERAISE", "CLEANUP_THROW", "COPY",
@@ -317,7 +320,7 @@ class World:
     (tools/gen/c01.build_world: no network, SetupData.connect answers True, or False at the
     queue positions listed in the scenario).  `S` = the protocols the device is connected with."""
 
-    def __init__(self, patches, sc):
+    def __init__(self, patches, sc, transform=None):
         from pyatv.const import Protocol
         from tools.gen.c01 import build_world, reachable_cores
 
@@ -325,7 +328,8 @@ class World:
         self.sc = sc
         self.video = sc["video"]
         spec = {k: v for k, v in sc.items() if k != "fail"}
-        self.built = build_world(patches.loop, spec, fail=tuple(sc["fail"]))
+        self.built = build_world(patches.loop, {k: v for k, v in spec.items() if k != "synthetic"},
+                                 fail=tuple(sc["fail"]), transform=transform)
         patches.ensure(self.built)
         self.atv = self.built.atv
         self.Protocol = Protocol
@@ -693,6 +697,155 @@ def run_static(ctx, patches, scenarios, full_env):
         ctx.note("args:" + ("reused-from-state-update" if env else "default"))
 
 
+# --- part 1b: synthetic protocol classes ----------------------------------------------------
+SHAPES = ["direct", "inherited", "mixin", "two-level", "inherited-twice"]
+
+
+def synthetic_class(patches, base, implemented, shape, tag):
+    """A protocol's class for interface `base` implementing exactly `implemented`, built the
+    given way: defined by the class itself; inherited from an intermediate class; provided by
+    a mixin listed before the interface; defined by an intermediate class and overridden again
+    by the concrete one; inherited through two intermediate levels.  Members record by themselves."""
+    from tools.gen.c01 import underlying
+
+    log, owner, iface = patches.log, patches.owner, base.__name__
+
+    def member(name):
+        template = base.__dict__[name]
+
+        def note(self_):
+            who = owner.get(id(self_), "?unregistered")
+            log.append((who, iface, name))
+            if who in patches.raising:
+                from pyatv import exceptions
+
+                raise getattr(exceptions, patches.raising[who])("raised by the implementation of " + who)
+            return 10.0 if name == "volume" else None
+
+        if isinstance(template, property):
+            return property(note)
+        if inspect.iscoroutinefunction(underlying(template)):
+            async def rec(self_, *a, **k):
+                return note(self_)
+            return rec
+
+        def rec(self_, *a, **k):
+            return note(self_)
+        return rec
+
+    body = {n: member(n) for n in implemented}
+    mark = {"_verif_synthetic": True}
+    name = f"Synthetic{iface}{tag}"
+    if shape == "direct":
+        return type(name, (base,), dict(body, **mark))
+    if shape == "inherited":
+        return type(name, (type(name + "Base", (base,), dict(body, **mark)),), {})
+    if shape == "inherited-twice":
+        mid = type(name + "Mid", (type(name + "Base", (base,), dict(body, **mark)),), {})
+        return type(name, (mid,), {})
+    if shape == "mixin":
+        return type(name, (type(name + "Mixin", (), dict(body, **mark)), base), {})
+    # two-level: the intermediate class defines everything, the concrete class overrides half of it again
+    again = {n: member(n) for n in list(implemented)[::2]}
+    return type(name, (type(name + "Base", (base,), dict(body, **mark)),), again)
+
+
+def synthetic_world(patches, table, shapes, S):
+    """A real device object (pyatv.connect) whose protocols in `S` register synthetic instances:
+    table[proto][iface] = members it implements (absent iface = not provided)."""
+    from pyatv import interface
+    from pyatv.const import FeatureName, FeatureState
+
+    class AllAvailable(interface.Features):
+        _verif_synthetic = True
+
+        def get_feature(self, feature_name):
+            return interface.FeatureInfo(FeatureState.Available)
+
+    def transform(proto, sd):
+        if sd.protocol.name not in table:
+            return sd
+        ifaces = {interface.Features: AllAvailable()}
+        for iface, members in table[sd.protocol.name].items():
+            cls = synthetic_class(patches, patches.bases[iface], members, shapes[(sd.protocol.name, iface)], sd.protocol.name)
+            ifaces[patches.bases[iface]] = cls()
+        return sd._replace(interfaces=ifaces, features=set(FeatureName))
+
+    return World(patches, scenario(S), transform=transform)
+
+
+def run_synthetic(ctx, patches, rng, n_random, only=None):
+    """The relayer and the facade on implementation tables other than pyatv's own: (a) every
+    protocol implements every member of every interface, for all 31 protocol sets, so that each
+    priority list is exercised in full; (b) random tables; each with classes of random shape."""
+    plans = []
+    full = {p: {i: list(patches.members[i]) for i in NINE} for p in TEXT_ORDER}
+    for k, S in enumerate(subsets()):
+        plans.append(({p: full[p] for p in S}, S, SHAPES[k % len(SHAPES)]))
+    for k in range(n_random):
+        r = rng.fork(k)
+        S = r.choice(subsets())
+        table = {}
+        for p in S:
+            table[p] = {}
+            for i in NINE:
+                if r.chance(0.8):
+                    table[p][i] = [m for m in patches.members[i] if r.chance(0.5)]
+        plans.append((table, S, None))
+    obs = []
+    if only is not None:
+        plans = [(c["table"], c["S"], c) for c in only]
+    for n, (table, S, shape) in enumerate(plans):
+        r = rng.fork("shape", n)
+        if only is not None:
+            shapes = {tuple(k.split("/")): v for k, v in shape["shapes"].items()}
+            holders = [shape["t"]]
+        else:
+            shapes = {(p, i): (shape or r.choice(SHAPES)) for p in table for i in table[p]}
+            holders = [None, r.choice(TEXT_ORDER)]
+        world = synthetic_world(patches, table, shapes, S)
+        if world.connect_error or not world.S:
+            continue
+        for t in holders:
+            release = None
+            if t is not None:
+                status, release = world.takeover(t, list(FACADE_ATTR.keys()))
+                if status != "ok":
+                    continue
+            observed = world.table(variants=False)
+            if release:
+                release()
+            regs = ",".join(f"{i}:{'+'.join(p for p in world.S if i in table[p])}" for i in NINE
+                            if any(i in table[p] for p in world.S))
+            impls = ",".join(f"{i}.{m}:{'+'.join(p for p in world.S if m in table[p].get(i, []))}"
+                             for i in NINE for m in patches.members[i] if any(m in table[p].get(i, []) for p in world.S))
+            obs.append((world, t, table, shapes, observed, f"synth {t or '-'} {regs or '-'} {impls or '-'}"))
+    answers = ctx.lean([o[-1] for o in obs])
+    for (world, t, table, shapes, observed, _line), ans in zip(obs, answers):
+        model = model_view(ans)
+        case = {"kind": "synthetic", "S": world.S, "t": t, "table": table,
+                "shapes": {f"{p}/{i}": s for (p, i), s in shapes.items()}, "scenario": world.sc, "env": None}
+        if model != observed:
+            diff = {k: (observed.get(k), model.get(k)) for k in observed if observed.get(k) != model.get(k)}
+            ctx.disagree(case, {k: v[0] for k, v in diff.items()}, {k: v[1] for k, v in diff.items()}, where="synthetic tables")
+        ctx.validated(len(observed))
+        # oracle: the property's order applied to who implements what BY CONSTRUCTION of the table
+        for key, got in observed.items():
+            iface, name = key.split(".", 1)
+            order = ([t] if t else []) + (POWER_ORDER if iface == "Power" else TEXT_ORDER)
+            want = next((p for p in order if p in world.S and name in table.get(p, {}).get(iface, [])), "!")
+            shape_of = shapes.get((want, iface)) if want != "!" else None
+            ctx.note("synthetic:shape:" + (shape_of or "nobody"))
+            if got != want:
+                ctx.fail(f"synthetic:{key}:{set_bits(world.S)}:{t or '-'}:{shape_of or '-'}", dict(case, member=key), got, want,
+                         f"{key} with synthetic protocols {'+'.join(world.S)} (holder {t or 'none'}); implemented by "
+                         f"{[p + '/' + shapes[(p, iface)] for p in world.S if name in table[p].get(iface, [])]}: executed by {got}, "
+                         f"the property demands {want}")
+        ctx.case(["synthetic", world.S, t, sorted(case["shapes"].items()), sorted((p, sorted(v.items())) for p, v in table.items())], True,
+                 sample={"synthetic_protocols": world.S, "holder": t, "shapes": sorted(set(shapes.values()))})
+        ctx.note("synthetic:worlds")
+
+
 # --- part 2 -------------------------------------------------------------------------------
 def gen_history(rng, length):
     """Well-formed op list; >=30% of takeovers fail by construction."""
@@ -817,12 +970,15 @@ def compare_history(ctx, S, ops, obs, answers):
         ctx.validated(1 + len(table))
 
 
-def run(ctx, only_static=None, only_history=None, full_env=None):
+def run(ctx, only_static=None, only_history=None, full_env=None, only_synthetic=None):
     loop = asyncio.new_event_loop()
     asyncio.set_event_loop(loop)
     patches = Patches(loop)
     try:
         rng = ctx.rng.fork("scenarios")
+        if only_synthetic is not None:
+            run_synthetic(ctx, patches, ctx.rng.fork("synthetic"), 0, only=only_synthetic)
+            return
         if only_history is None:
             if only_static is not None:
                 scenarios = only_static
@@ -831,6 +987,8 @@ def run(ctx, only_static=None, only_history=None, full_env=None):
                 ctx.exhaustive = True
             run_static(ctx, patches, scenarios,
                        full_env=(ctx.thorough or only_static is not None) if full_env is None else full_env)
+            if only_static is None:
+                run_synthetic(ctx, patches, ctx.rng.fork("synthetic"), ctx.scale(150, 1500))
         if only_static is None:
             if only_history is not None:
                 hist = only_history
@@ -872,6 +1030,9 @@ def run(ctx, only_static=None, only_history=None, full_env=None):
 def replay(ctx, failure):
     case = failure["case"]
     c2 = type(ctx)(ctx.prop, ctx.tier, ctx.seed, ctx.driver.driver_rel)
+    if case.get("kind") == "synthetic":
+        run(c2, only_synthetic=[case])
+        return bool(c2.failures)
     if case.get("kind") == "history":
         ops = case["ops"][: case["step"] + 1]
         run(c2, only_history=[(case["scenario"], ops)])
